@@ -25,6 +25,7 @@ from sa.pyfront import Program
 from sa.symex import Interp, flat_guards
 
 RULES = {
+    "R-C01-h": "from_array and to_array leave the array, the counts mapping and the value mapping passed to them unchanged (imported from the C17 frame analysis): a second construction from the same caller-supplied counts then sees what the caller built",
     "R-C01-g": "from_array builds its result in one place: no early return of a ready-made index (an entry-less index returned because the data has a single distinct value is wrong whenever the caller-chosen common value is another one)",
     "R-C01-f": "the dtype ladder that to_array relies on (fit_dtype) contains [min, max] in every leaf - imported from the C19 analysis",
     "R-C01-a": "fit_dtype receives a minimum whenever its argument is a category value that may be negative (to_array, both branches)",
@@ -332,6 +333,10 @@ def main(tier):
     rule_d(prog, rep)
     rule_e(prog, rep)
     rule_g(prog, rep)
+    import c17
+    st17 = {"events": 0, "mods": 0, "diagnostic": {}, "exceptions": {}, "regions": 0, "shortcuts": 0}
+    for q17 in ("iindex.from_array", "iindex.to_array"):
+        c17.analyse_root(prog, prog.func("iindexes", q17), "pure", rep, st17, RA="R-C01-h", RB="R-C01-h", extra=False)
     import c19
     sub = core.Report("C19", level="proof", rules=c19.RULES, tier=tier)
     c19.analyse(prog, sub, False)
